@@ -71,7 +71,9 @@ func runC01(cw *caseWriter, tier string, seed uint64) {
 		runScenarios(cw, 2, seed*100000, 120, 12)
 		runScenarios(cw, 3, seed*100000, 30, 12)
 		runScenarios(cw, 1, seed*100000, 60, 12)
+		runScenarios(cw, 20, seed*100000, 12, 6) // a deposed leader whose replication goroutines are still running
 	} else {
+		runScenarios(cw, 20, seed*100000, 200, 6)
 		runScenarios(cw, 2, seed*100000, 2500, 12)
 		runScenarios(cw, 3, seed*100000, 300, 12)
 		runScenarios(cw, 1, seed*100000, 1200, 12)
